@@ -13,6 +13,8 @@ where
     T: FromRO,
     X: ExpandMsg,
 {
+    #[cfg(feature = "verif")]
+    ::verif_probe::probe(::verif_probe::HASH_TO_FIELD);
     let len_per_elm = <T as FromRO>::Length::to_usize();
     let len_in_bytes = count * len_per_elm;
     let pseudo_random_bytes = X::expand_message(msg, dst, len_in_bytes);
